@@ -5,7 +5,7 @@ from bsa.core import driver
 from bsa.graph import IG
 from bsa import atomics as A
 from bsa import lib as L
-from bsa.facts import pstr, strip_cast, const_val
+from bsa.facts import pstr, strip_cast, const_val, walk
 
 EXPLANATION = (
     "Structural clauses of C04 on every instantiation of ConcurrentVector (dynamic, static 128, static 1 block size; "
@@ -210,6 +210,27 @@ def run(ctx):
         ctx.ob("C04.R2f", inst, ok, fn.loc,
                "the loser must free exactly the index range it created in the fresh table: create loops %s, delete loops %s"
                % (rc, rd))
+        # ... and the start/bound variables must still hold the values the creation loop used
+        def loop_decl(call_node):
+            sig = loop_sig(call_node)
+            if sig is None or not (isinstance(sig[1], dict) and sig[1].get("k") == "l"):
+                return None
+            for n_, rhs, how in ig.local_defs(ig.frames[0], sig[1]["id"]):
+                if how == "decl":
+                    return n_, rhs
+            return None
+        for c in cblocks:
+            for d in dblocks:
+                lc, ld = loop_decl(c), loop_decl(d)
+                if lc is None or ld is None:
+                    continue
+                for v in [x for x in walk(ld[1]) if x.get("k") == "l"]:
+                    v = dict(v, fr=0)
+                    x = L.redefined_between(ig, v, lc[0], ld[0])
+                    ctx.ob("C04.R2g", inst, x is None, (x.where if x else ld[0].where),
+                           "'%s', the first index the loser frees, is re-assigned between the creation loop and the "
+                           "clean-up loop: blocks created before the re-assignment are neither freed nor adopted" %
+                           v.get("n"), site="%s@loser-range" % inst)
         # R2g / R5b creation precedes publication
         for c in cas:
             ctx.ob("C04.R5b", inst, bool(cblocks) and ig.dominated_by(c.node, cblocks), c.node.where,
